@@ -1135,7 +1135,14 @@ func writeEvidence(p *propCfg, b *build, bt *batch, tier string, seed, total uin
 	if b.native {
 		mapSeam = "native (instrumentation fell back; Go's own random order)"
 	}
+	faults := map[string]int64{}
+	for k, v := range bt.counters {
+		if strings.HasPrefix(k, "fault_") || strings.HasPrefix(k, "fam_") || strings.Contains(k, "short_reads") || strings.Contains(k, "zero_reads") || strings.HasPrefix(k, "eof_") {
+			faults[k] = v
+		}
+	}
 	cov := map[string]any{
+		"faults_fired":        faults,
 		"evaluations":         bt.cases,
 		"distinct_nontrivial": distinct(bt.sigs),
 		"rule":                p.rule,
